@@ -91,3 +91,111 @@ def f(g, bs):
     assume(spec.b2s_ok(g, bs))
     assert len(bs) == spec.ssize(g), "b2s-len"
 ''')
+
+# ======================================================================================================================
+# Ed25519: the same laws with gadd = ed_add, gmul = ed_mul, enc = RFC 8032 point encoding, q = L
+# ======================================================================================================================
+EG = "obj:ed25519_group._Ed25519Group"
+law("Ed25519", "ILAW-q", dict(g=EG), '''
+def f(g):
+    assert spec.gq(g) >= 2, "q>=2"
+''')
+law("Ed25519", "ILAW-size", dict(g=EG), '''
+def f(g):
+    assert spec.esize(g) >= 1 and spec.ssize(g) >= 1, "sizes>=1"
+''')
+law("Ed25519", "ILAW-closure", dict(g=EG, a="spec:ept", b="spec:ept", n="int"), '''
+def f(g, a, b, n):
+    lemma("ed_insub_O")
+    assert spec.insub(g, spec.O(g)), "identity-in-subgroup"
+    assert spec.insub(g, spec.G(g)), "generator-in-subgroup"
+    assume(spec.insub(g, a) and spec.insub(g, b))
+    lemma("ed_insub_add", a, b)
+    assert spec.insub(g, spec.gadd(g, a, b)), "add-closed"
+    lemma("ed_insub_mul", n, a)
+    assert spec.insub(g, spec.gmul(g, n, a)), "scalarmult-closed"
+''')
+law("Ed25519", "ILAW-enc-len", dict(g=EG, a="spec:ept"), '''
+def f(g, a):
+    assert len(spec.enc(g, a)) == spec.esize(g), "enc-len"
+''')
+law("Ed25519", "ILAW-dec-enc", dict(g=EG, a="spec:ept"), '''
+def f(g, a):
+    assume(spec.insub(g, a) and a != spec.O(g))
+    spec.ed_decodable_intro(a, spec.enc(g, a))
+    assert spec.decodable(g, spec.enc(g, a)), "decodable"
+    assert spec.dec(g, spec.enc(g, a)) == a, "dec-enc"
+''')
+law("Ed25519", "ILAW-enc-inj", dict(g=EG, a="spec:ept", b="spec:ept"), '''
+def f(g, a, b):
+    spec.ed_disable_auto_injectivity()
+    assume(spec.enc(g, a) == spec.enc(g, b))
+    lemma("ed_same_y", a, b)
+    spec.ed_coords_determine_point(a, b)
+    assert spec.ed_y(a) == spec.ed_y(b), "same-y"
+    assert spec.ed_x(a) % 2 == spec.ed_x(b) % 2, "same-parity"
+    assert a == b, "enc-injective"
+''')
+law("Ed25519", "ILAW-dec-strict", dict(g=EG, bs="bytes"), '''
+def f(g, bs):
+    assume(spec.decodable(g, bs))
+    assert len(bs) == spec.esize(g), "exact-length"
+    assert spec.insub(g, spec.dec(g, bs)), "in-subgroup"
+    assert spec.dec(g, bs) != spec.O(g), "not-identity"
+''')
+law("Ed25519", "ILAW-enc-dec", dict(g=EG, bs="bytes"), '''
+def f(g, bs):
+    assume(spec.decodable(g, bs))
+    assert spec.enc(g, spec.dec(g, bs)) == bs, "canonical"
+''')
+law("Ed25519", "ILAW-p2s-range", dict(g=EG, pw="bytes"), '''
+def f(g, pw):
+    assert 0 <= spec.p2s(g, pw) and spec.p2s(g, pw) < spec.gq(g), "p2s-range"
+''')
+law("Ed25519", "ILAW-ae-insub", dict(g=EG, seed="bytes"), '''
+def f(g, seed):
+    e = g.arbitrary_element(seed)      # by contract (partial correctness: assumes the try-and-increment loop terminates)
+    assert spec.insub(g, spec.ae(g, seed)), "ae-in-subgroup"
+''')
+law("Ed25519", "ILAW-scalar-roundtrip", dict(g=EG, i="int"), '''
+def f(g, i):
+    assume(0 <= i and i < spec.gq(g))
+    assert len(spec.s2b(g, i)) == spec.ssize(g), "s2b-len"
+    assert spec.b2s_ok(g, spec.s2b(g, i)), "b2s-accepts"
+    assert spec.b2s(g, spec.s2b(g, i)) == i, "roundtrip"
+''')
+law("Ed25519", "ILAW-b2s-len", dict(g=EG, bs="bytes"), '''
+def f(g, bs):
+    assume(spec.b2s_ok(g, bs))
+    assert len(bs) == spec.ssize(g), "b2s-len"
+''')
+
+# ---- module initialisation of ed25519_basic: the singletons Zero and Base satisfy their class invariants ----------------
+c = REG.ghost_function("lemma.ed_module_init", "ed25519_basic", """
+def module_init():
+    raw_globals()
+    z = xform_affine_to_extended((0, 1))
+    assume(z == ground("xform_affine_to_extended((0,1))"))
+    assert tuple(ground("Zero.XYTZ")) == tuple(ground("xform_affine_to_extended((0,1))")), "Zero-is-xform-of-(0,1)"
+    assert spec.ed_valid(Zero.XYTZ), "Zero-valid"
+    assert spec.ed_view(Zero) == spec.ed_O(), "Zero-is-identity"
+    assert ground("_zero_bytes") == b"\\x01" + b"\\x00" * 31, "zero-bytes"
+    assert ground("B") == [spec.ed_Bx(), spec.ed_By()], "B-is-RFC8032-base-point"
+    b = xform_affine_to_extended(B)
+    assume(b == ground("xform_affine_to_extended(B)"))
+    assert tuple(ground("Base.XYTZ")) == tuple(ground("xform_affine_to_extended(B)")), "Base-is-xform-of-B"
+    assert spec.ed_valid(Base.XYTZ), "Base-valid"
+    assert spec.ed_view(Base) == spec.ed_B(), "Base-is-B"
+    r = scalarmult_element_safe_slow(Base.XYTZ, L)
+    t = is_extended_zero(r)
+    assume(t == ground("is_extended_zero(scalarmult_element_safe_slow(Base.XYTZ, L))"))
+    u = is_extended_zero(Base.XYTZ)
+    assume(u == ground("is_extended_zero(Base.XYTZ)"))
+    lemma("ed_insub_def", spec.ed_view(Base))
+    assert spec.ed_insub(spec.ed_view(Base)), "Base-in-subgroup"
+    assert spec.ed_view(Base) != spec.ed_O(), "Base-not-identity"
+    assert ground("(lambda g: g.Ed25519Group.Base is Base and g.Ed25519Group.Zero is Zero and g.Ed25519Group.scalar_size_bytes == 32 and g.Ed25519Group.element_size_bytes == 32)(__import__('spake2.ed25519_group', fromlist=['x']))"), "group-object-holds-Base-and-Zero"
+    return None
+""")
+c.params().returns("none")
+c.lemma_tags = {"C13", "C18", "C12", "C05", "C01"}
